@@ -613,6 +613,11 @@ func (p *probeRun) checkAll(step string) {
 				if err == nil {
 					p.fail("C02", "range-error", "Unpack of a tree with an out-of-range literal succeeded", "error", canonValue(got))
 				}
+				// the read that failed has computed nothing: asked again at once it fails again (C13: "whether the call succeeds or fails")
+				p.o.Check("C13", "read-again-same")
+				if got2, err2 := n.Unpack(); (err == nil) != (err2 == nil) {
+					p.fail("C13", "read-again-same", "Unpack of "+n.Path()+" repeated at once answers differently: the first call left something behind", canonValueOrErr(got, err), canonValueOrErr(got2, err2))
+				}
 			} else if err != nil || canonValue(got) != canonValue(want) {
 				p.fail("C05", "value-vs-plain-data", "Unpack differs from the plain-data reference at "+n.Path()+" after "+step, canonValue(want), fmt.Sprint(canonValueOrErr(got, err)))
 			}
@@ -950,6 +955,20 @@ func (p *probeRun) step(f []string, check bool) string {
 			if derr == nil {
 				p.link(root, refFromValue(v, nil))
 			}
+			// the very first reads of the fresh tree, twice in a row: a read that fails (a number outside float64) has computed nothing,
+			// so the same read fails again (C13: a query leaves the tree as it is "whether the call succeeds or fails"; C02: any number
+			// of times with the same answer)
+			// (only for texts with such a number: every other tree stays unread, for the probes that read lazily)
+			if check && derr == nil && p.ref[root] != nil && p.ref[root].hasRange() {
+				o.Check("C13", "read-again-same")
+				o.Check("C02", "read-again-same")
+				v1, e1 := root.Unpack()
+				v2, e2 := root.Unpack()
+				if (e1 == nil) != (e2 == nil) || (e1 == nil && canonValue(v1) != canonValue(v2)) {
+					p.fail("C13", "read-again-same", "the first Unpack of a freshly parsed tree and the second one, made at once, answer differently: the first left something behind", canonValueOrErr(v1, e1), canonValueOrErr(v2, e2))
+					p.fail("C02", "read-again-same", "the first Unpack of a freshly parsed tree and the second one answer differently", canonValueOrErr(v1, e1), canonValueOrErr(v2, e2))
+				}
+			}
 		} else {
 			obs = errStr(err)
 		}
@@ -965,6 +984,17 @@ func (p *probeRun) step(f []string, check bool) string {
 	}
 	if strings.HasPrefix(obs, "panic") {
 		p.fail("C11", "no-panic", "panic in "+strings.Join(f, " "), "", obs)
+		// a copy is a tree like any other: a request that panics on a clone (or on a tree that was cloned) is a request the copy does
+		// not answer as an equal tree would
+		if len(f) > 1 {
+			func() {
+				defer func() { _ = recover() }()
+				if n := p.s.node(f[1]); n != nil && p.cloneRel[rootOf(n)] {
+					o.Check("C14", "clone-is-a-tree-like-any-other")
+					p.fail("C14", "clone-is-a-tree-like-any-other", "a request addressed to a clone or to a cloned tree panicked: "+strings.Join(f, " "), "a result or an error", obs)
+				}
+			}()
+		}
 		return obs
 	}
 	if obs == "hang" {
@@ -1063,6 +1093,16 @@ func (p *probeRun) step(f []string, check bool) string {
 	}
 	if op == "eq" || op == "neq" || op == "le" || op == "leq" || op == "ge" || op == "geq" {
 		p.checkCompare(f, obs)
+	}
+	// C13/C02: a read answers the same when it is asked again — in particular a read that FAILED (a number outside the float64
+	// range) has computed nothing that the next read could answer with
+	if op == "read" || op == "eq" || op == "neq" || op == "le" || op == "leq" || op == "ge" || op == "geq" {
+		o.Check("C13", "read-again-same")
+		o.Check("C02", "read-again-same")
+		if again := p.s.Exec(f); again != obs && !strings.HasPrefix(again, "panic") && again != "hang" {
+			p.fail("C13", "read-again-same", "the same read-only call, repeated at once, answers differently (the first call left something behind): "+strings.Join(f, " "), obs, again)
+			p.fail("C02", "read-again-same", "the same read, repeated at once, answers differently: "+strings.Join(f, " "), obs, again)
+		}
 	}
 	p.checkAll(strings.Join(f, " "))
 	return obs
